@@ -307,8 +307,8 @@ void OrderedSimplex::fireParameterChanged(const ParameterList& pl)
 
 void OrderedSimplex::setFrequencies(const std::vector<double>& vValues)
 {
-  vValues_ = vValues;
-
+  // vValues_ is updated from the parameters by fireParameterChanged,
+  // and only if vValues is accepted.
   auto dim = vValues.size();
   Vdouble vprob(dim);
 
